@@ -134,10 +134,10 @@ def pathShow (s : PathM.S) : String :=
     Tokens are abstract: the current path's challenge is token 1, the previous path's token 2; a response is
     `match` (echoes the current challenge) or `nomatch`. -/
 def pathm : List String → String
-  | "pkt" :: src :: trig :: now :: pto3 :: st =>
-    match src.toNat?, trig.toNat?, now.toNat?, pto3.toNat?, pathParse st with
-    | some src, some trig, some now, some pto3, some s => pathShow (PathM.step s (.pkt src (trig == 1) now pto3 1 2))
-    | _, _, _, _, _ => "bad-op"
+  | "pkt" :: src :: trig :: now :: ptoNew :: ptoOld :: st =>
+    match src.toNat?, trig.toNat?, now.toNat?, ptoNew.toNat?, ptoOld.toNat?, pathParse st with
+    | some src, some trig, some now, some ptoNew, some ptoOld, some s => pathShow (PathM.step s (.pkt src (trig == 1) now ptoNew ptoOld 1 2))
+    | _, _, _, _, _, _ => "bad-op"
   | "response" :: src :: m :: st =>
     match src.toNat?, pathParse st with
     | some src, some s => pathShow (PathM.step s (.response src (if m == "match" then 1 else 99)))
